@@ -30,8 +30,8 @@ TIERS = {
     # n_enum, n_random trees per grammar; wrappers per template; watchdog (CPU seconds per call);
     # wide_numeric: number of pool trees (fixed stride) used for numeric-quantifier variants on the
     # `wide` grammar, where quantifier elimination builds formulas quadratic in the 30/40 children
-    "quick": dict(n_enum=22, n_random=3, wrappers=1, watchdog=20.0, wide_numeric=5),
-    "thorough": dict(n_enum=150, n_random=30, wrappers=3, watchdog=90.0, wide_numeric=16),
+    "quick": dict(n_enum=28, n_random=4, wrappers=1, watchdog=20.0, wide_numeric=5, wide_plain=14),
+    "thorough": dict(n_enum=150, n_random=30, wrappers=3, watchdog=90.0, wide_numeric=16, wide_plain=None),
 }
 
 
@@ -61,7 +61,8 @@ def _build_tasks(tier: str, seed: int) -> List[Dict[str, Any]]:
             tasks.append(dict(grammar=name, tid=tpl.tid, cat=tpl.cat, variant="plain", text=tpl.plain,
                               dc=None, raw=tpl.raw, oracle_text=tpl.oracle_text,
                               n_enum=cfg["n_enum"], n_random=cfg["n_random"], seed=seed,
-                              watchdog=cfg["watchdog"]))
+                              watchdog=cfg["watchdog"],
+                              max_trees=cfg["wide_plain"] if name == "wide" else None))
             variants = H.numeric_variants(tpl, name)
             if len(variants) > 1:
                 if cfg["wrappers"] == 1:
